@@ -971,6 +971,13 @@ func (h *rzHarness) emit(c *rzCall, kind string, ctx context.Context, tag string
 	}
 	go func() {
 		var err error
+		defer func() {
+			if r := recover(); r != nil {
+				mu.Lock()
+				res = "panic"
+				mu.Unlock()
+			}
+		}()
 		if kind == "N" {
 			err = c.ss.NotifyProgress(ctx, &ProgressNotificationParams{ProgressToken: "p", Message: tag, Progress: 1})
 		} else {
